@@ -97,6 +97,16 @@ Theorem C04_da_set : forall l : list N,
   strictly_increasing (sort_dedup l) = true /\ forall y, In y (sort_dedup l) <-> In y l.
 Proof. exact sort_dedup_spec. Qed.
 
+(* 4f. DECRPSS face report for EVERY well-formed parameter string: the face of the recorded SGR
+   machine (7 / 27 / 39 / 49 ignored -- known finding C04-face-report-inverse = C06-inexpressible seen
+   through events: a terminal in reverse video answering the library's own FaceGet loses REVERSE
+   although Face can carry it); for strings without these parameters this is the reference machine
+   itself and part of C04_single_partial *)
+Theorem C04_face_report_recorded : forall (p rest : list N),
+  sgr_wf p = true ->
+  prod_decode (print (RFaceReport p) ++ rest) = (face_report_recorded p :: fst (prod_decode rest), snd (prod_decode rest)).
+Proof. exact face_report_recorded_decode. Qed.
+
 (* 5. xterm / fixterms modifier convention over the whole table: CSI n ; m ~ and CSI 1 ; m X name
    the key of the unmodified sequence with modifier mask m - 1 *)
 Theorem C04_key_modifiers : forallb mod_entry_ok prod_key_table = true.
